@@ -8,4 +8,4 @@ Extraction "serial_model.ml"
   hash_save hash_load fit_save fit_load
   mep_save mep_load mep_default ga_save de_save ga_load de_load vec_default
   team_save team_load team_default pop_save pop_load pop_load_pinned
-  summary_save summary_load minus_one mep_empty vec_empty dist_save dist_load matrix_save matrix_load.
+  summary_save summary_load minus_one mep_empty vec_empty read_i32 read_i64 dist_save_ok dist_save dist_load matrix_save matrix_load.
